@@ -2,6 +2,7 @@ package props
 
 import (
 	"bytes"
+	stdflate "compress/flate"
 	stdgzip "compress/gzip"
 	stdzlib "compress/zlib"
 	"fmt"
@@ -20,7 +21,7 @@ import (
 
 // Member is one gzip member / zlib stream written by a real Writer.
 type Member struct {
-	Enc   string      `json:"enc"` // fast | std
+	Enc   string      `json:"enc"` // fast | std | raw (body laid out by the harness: prefix by compress/flate + Flush, or stored blocks, then a FINAL STORED block carrying the last Level bytes; no Writer emits that shape)
 	Level int         `json:"level"`
 	Data  gen.Recipe  `json:"data"`
 	Ops   []gen.Op    `json:"ops,omitempty"` // W/F (nil = one Write)
@@ -82,6 +83,9 @@ func writeMemberOps(w anyWriter, data []byte, ops []gen.Op) error {
 
 func (m Member) build(pkg string) (z []byte, err error) {
 	defer guardPanic(&err)
+	if m.Enc == "raw" && pkg == "gzip" {
+		return m.buildRawGzip()
+	}
 	var b bytes.Buffer
 	w, err := newContainerWriter(pkg, m.Enc, &b, m.Level, m.Hdr, recipeBytes(m.Dict))
 	if err != nil {
@@ -192,4 +196,59 @@ func trunc(s string) string {
 		return s[:24] + "…"
 	}
 	return s
+}
+
+
+// buildRawGzip lays out a gzip member whose DEFLATE body ends in a final stored block that carries data:
+// header as compress/gzip writes it for m.Hdr, then the first len-tail payload bytes (tail = m.Level, clamped)
+// either as stored blocks (len(Ops)==0) or compressed by compress/flate and flushed, then the tail as one
+// stored block with BFINAL set, then CRC-32 and size.
+func (m Member) buildRawGzip() ([]byte, error) {
+	data := m.Data.Bytes()
+	empty, err := Member{Enc: "std", Level: 6, Hdr: m.Hdr}.build("gzip")
+	if err != nil {
+		return nil, err
+	}
+	g := refinflate.ParseGzip(empty, false)
+	if g.Verdict != refinflate.CValid || len(g.Members) != 1 {
+		return nil, fmt.Errorf("harness: raw member header: %v", g.Verdict)
+	}
+	z := append([]byte(nil), empty[:g.Members[0].BodyStart]...)
+	tail := m.Level
+	if tail < 0 {
+		tail = 0
+	}
+	if tail > len(data) {
+		tail = len(data)
+	}
+	if tail > 65535 {
+		tail = 65535
+	}
+	pre := data[:len(data)-tail]
+	if len(m.Ops) == 0 {
+		for len(pre) > 0 {
+			n := len(pre)
+			if n > 65535 {
+				n = 65535
+			}
+			z = append(z, 0, byte(n), byte(n>>8), ^byte(n), ^byte(n>>8))
+			z = append(z, pre[:n]...)
+			pre = pre[n:]
+		}
+	} else if len(pre) > 0 {
+		var b bytes.Buffer
+		fw, _ := stdflate.NewWriter(&b, 1+len(m.Ops)%9)
+		fw.Write(pre)
+		fw.Flush()
+		z = append(z, b.Bytes()...)
+	}
+	z = append(z, 1, byte(tail), byte(tail>>8), ^byte(tail), ^byte(tail>>8))
+	z = append(z, data[len(data)-tail:]...)
+	c := crc32.ChecksumIEEE(data)
+	n := uint32(len(data))
+	z = append(z, byte(c), byte(c>>8), byte(c>>16), byte(c>>24), byte(n), byte(n>>8), byte(n>>16), byte(n>>24))
+	if m.HCRC {
+		return addHeaderCRC(z)
+	}
+	return z, nil
 }
